@@ -55,14 +55,18 @@ RULES = {
 }
 
 
-def corrupt(family, src, dst, seed):
+def corrupt(family, src, dst, seed, avoid=()):
+    """`avoid`: line numbers (field i) the specification already flags in the uncorrupted trace - on a tree that breaks a
+    property the self-test must pick an event that is still clean, otherwise it could not tell the corruption's flag from
+    the violation's."""
     rules = RULES.get(family)
     if not rules:
         return None
     rng = random.Random(seed)
     lines = open(src).read().splitlines()
     kind, pred, mut, desc = rules[rng.randrange(len(rules))]
-    cands = [k for k, l in enumerate(lines) if f'"ev":"{kind}"' in l and pred(json.loads(l))]
+    avoid = set(avoid)
+    cands = [k for k, l in enumerate(lines) if f'"ev":"{kind}"' in l and pred(json.loads(l)) and json.loads(l).get("i") not in avoid]
     if not cands:
         return None
     k = cands[rng.randrange(len(cands))]
